@@ -79,7 +79,8 @@ theorem ltuLoop_run {lt : α → α → Bool} (hlt : SWO lt) (sentinel dflt : α
     | some s =>
       rw [hs] at hq0
       simp only [Option.map_some, Option.some.injEq] at hq0
-      obtain ⟨W, hW, _⟩ := inv.2.valid
+      obtain ⟨_, hinvI⟩ := inv.2
+      obtain ⟨W, hW, _⟩ := hinvI.valid
       have hsrc := C09.minSource_real hW hms hsl (by unfold invalid; omega)
       obtain ⟨t', hd, hv', inv'⟩ := C09.replace_TInv hlt inv hW (by rw [hsrc]; simpa using hsl) (some nx)
       have hhead : q0.head? = some nx := by rw [hq01]; rfl
